@@ -164,9 +164,10 @@ theorem step_binv (st : Step root tree G ph ph' ctx ctx' ni pn vni cs rs suf l M
       · cases h
         -- a new record for the visited node `x`, which lies below `c`
         rcases st.vis' (Or.inr hy3) with e | ⟨_, _, hsame⟩
-        · subst e
-          exact absurd (ho.preAbove y c y hy hpc hdc st.hph).2 (above_irrefl ho.nodup)
+        · have := (ho.preAbove y c ni hy hpc hdc st.hph).2
+          rw [e] at this
+          exact absurd this (above_irrefl ho.nodup)
         · rw [hsame] at hy3
-          exact absurd st.hph (ho.preDone y c x hy hpc hdc hy3)
+          exact absurd st.hph (ho.preDone y c ni hy hpc hdc hy3)
 
 end Garnish.Lemmas.BuildSeq
